@@ -45,6 +45,7 @@ def v3000_styles(draw, rich=True, allow_exachg=True, allow_zero=True, allow_star
     s["end_eol"] = draw(st.booleans())
     s["counts_extra"] = draw(st.booleans())
     s["aamap"] = draw(st.booleans())
+    s["long"] = draw(st.sampled_from([False, False, False, True]))
     return s
 
 
